@@ -696,6 +696,8 @@ void generate_string_operations(StringBuilder *sb) {
     sb_append(sb, "}\n\n");
 
     /* Array operators (elementwise) */
+    sb_append(sb, "static inline int64_t nl_idiv(int64_t a, int64_t b);\n");
+    sb_append(sb, "static inline int64_t nl_imod(int64_t a, int64_t b);\n");
     sb_append(sb, "static const char* nl_str_concat(const char* s1, const char* s2);\n");
     sb_append(sb, "static DynArray* nl_array_add(DynArray* a, DynArray* b);\n");
     sb_append(sb, "static DynArray* nl_array_sub(DynArray* a, DynArray* b);\n");
@@ -758,7 +760,7 @@ void generate_string_operations(StringBuilder *sb) {
     sb_append(sb, "    int64_t len = dyn_array_length(a);\n");
     sb_append(sb, "    DynArray* out = dyn_array_new(t);\n");
     sb_append(sb, "    switch (t) {\n");
-    sb_append(sb, "        case ELEM_INT: for (int64_t i=0;i<len;i++) dyn_array_push_int(out, dyn_array_get_int(a,i)/dyn_array_get_int(b,i)); break;\n");
+    sb_append(sb, "        case ELEM_INT: for (int64_t i=0;i<len;i++) dyn_array_push_int(out, nl_idiv(dyn_array_get_int(a,i), dyn_array_get_int(b,i))); break;\n");
     sb_append(sb, "        case ELEM_FLOAT: for (int64_t i=0;i<len;i++) dyn_array_push_float(out, dyn_array_get_float(a,i)/dyn_array_get_float(b,i)); break;\n");
     sb_append(sb, "        case ELEM_ARRAY: for (int64_t i=0;i<len;i++) dyn_array_push_array(out, nl_array_div(dyn_array_get_array(a,i), dyn_array_get_array(b,i))); break;\n");
     sb_append(sb, "        default: assert(false && \"nl_array_div: unsupported element type\");\n");
@@ -772,7 +774,7 @@ void generate_string_operations(StringBuilder *sb) {
     sb_append(sb, "    int64_t len = dyn_array_length(a);\n");
     sb_append(sb, "    DynArray* out = dyn_array_new(t);\n");
     sb_append(sb, "    switch (t) {\n");
-    sb_append(sb, "        case ELEM_INT: for (int64_t i=0;i<len;i++) dyn_array_push_int(out, dyn_array_get_int(a,i)%dyn_array_get_int(b,i)); break;\n");
+    sb_append(sb, "        case ELEM_INT: for (int64_t i=0;i<len;i++) dyn_array_push_int(out, nl_imod(dyn_array_get_int(a,i), dyn_array_get_int(b,i))); break;\n");
     sb_append(sb, "        case ELEM_ARRAY: for (int64_t i=0;i<len;i++) dyn_array_push_array(out, nl_array_mod(dyn_array_get_array(a,i), dyn_array_get_array(b,i))); break;\n");
     sb_append(sb, "        default: assert(false && \"nl_array_mod: unsupported element type\");\n");
     sb_append(sb, "    }\n");
@@ -808,25 +810,25 @@ void generate_string_operations(StringBuilder *sb) {
     sb_append(sb, "static DynArray* nl_array_div_scalar_int(DynArray* a, int64_t s) {\n");
     sb_append(sb, "    assert(a); assert(dyn_array_get_elem_type(a) == ELEM_INT);\n");
     sb_append(sb, "    int64_t len = dyn_array_length(a); DynArray* out = dyn_array_new(ELEM_INT);\n");
-    sb_append(sb, "    for (int64_t i=0;i<len;i++) dyn_array_push_int(out, dyn_array_get_int(a,i) / s);\n");
+    sb_append(sb, "    for (int64_t i=0;i<len;i++) dyn_array_push_int(out, nl_idiv(dyn_array_get_int(a,i), s));\n");
     sb_append(sb, "    return out;\n");
     sb_append(sb, "}\n\n");
     sb_append(sb, "static DynArray* nl_array_rdiv_scalar_int(int64_t s, DynArray* a) {\n");
     sb_append(sb, "    assert(a); assert(dyn_array_get_elem_type(a) == ELEM_INT);\n");
     sb_append(sb, "    int64_t len = dyn_array_length(a); DynArray* out = dyn_array_new(ELEM_INT);\n");
-    sb_append(sb, "    for (int64_t i=0;i<len;i++) dyn_array_push_int(out, s / dyn_array_get_int(a,i));\n");
+    sb_append(sb, "    for (int64_t i=0;i<len;i++) dyn_array_push_int(out, nl_idiv(s, dyn_array_get_int(a,i)));\n");
     sb_append(sb, "    return out;\n");
     sb_append(sb, "}\n\n");
     sb_append(sb, "static DynArray* nl_array_mod_scalar_int(DynArray* a, int64_t s) {\n");
     sb_append(sb, "    assert(a); assert(dyn_array_get_elem_type(a) == ELEM_INT);\n");
     sb_append(sb, "    int64_t len = dyn_array_length(a); DynArray* out = dyn_array_new(ELEM_INT);\n");
-    sb_append(sb, "    for (int64_t i=0;i<len;i++) dyn_array_push_int(out, dyn_array_get_int(a,i) % s);\n");
+    sb_append(sb, "    for (int64_t i=0;i<len;i++) dyn_array_push_int(out, nl_imod(dyn_array_get_int(a,i), s));\n");
     sb_append(sb, "    return out;\n");
     sb_append(sb, "}\n\n");
     sb_append(sb, "static DynArray* nl_array_rmod_scalar_int(int64_t s, DynArray* a) {\n");
     sb_append(sb, "    assert(a); assert(dyn_array_get_elem_type(a) == ELEM_INT);\n");
     sb_append(sb, "    int64_t len = dyn_array_length(a); DynArray* out = dyn_array_new(ELEM_INT);\n");
-    sb_append(sb, "    for (int64_t i=0;i<len;i++) dyn_array_push_int(out, s % dyn_array_get_int(a,i));\n");
+    sb_append(sb, "    for (int64_t i=0;i<len;i++) dyn_array_push_int(out, nl_imod(s, dyn_array_get_int(a,i)));\n");
     sb_append(sb, "    return out;\n");
     sb_append(sb, "}\n\n");
 
